@@ -16,6 +16,9 @@ func main() {
 		fmt.Fprintln(os.Stderr, "usage: vcheck <id> <quick|thorough> | replay <file> | list")
 		os.Exit(2)
 	}
+	if f, ok := run.Commands[os.Args[1]]; ok {
+		os.Exit(f(os.Args[2:]))
+	}
 	switch os.Args[1] {
 	case "-worker":
 		os.Exit(run.WorkerMain(os.Args[2:]))
